@@ -164,14 +164,26 @@ def r1(ctx):
     ok = (None if not loops else (len(loops) == 1 and any(isinstance(c, ast.Call) and u(c.func) == "results.append" for c in ast.walk(loops[0])) and any(isinstance(s, ast.Assign) and u(s.value) == "deref(read_sets)[%s]" % u(loops[0].target) for s in ast.walk(loops[0]))))
     hop("9a core.pyx returns read sets in pedigree index order", ok, gsp.loc(), "results[i] wraps read set i", "core.pyx no longer returns the read sets in index order")
     run = ctx.func(PH + ".run_whatshap")
-    z = [n for n in walk_function(run.node) if isinstance(n, ast.For) and u(n.iter) == "zip(family, superreads_list)"]
+    def _is_zip(e):
+        return u(util.expand_single_defs(run.node, e)) in ("zip(family, superreads_list)", "list(zip(family, superreads_list))", "tuple(zip(family, superreads_list))")
+
+    z = [n for n in walk_function(run.node) if isinstance(n, ast.For) and _is_zip(n.iter) and isinstance(n.target, ast.Tuple) and len(n.target.elts) == 2]
     cpl = [n for n in walk_function(cp.node) if isinstance(n, ast.For) and u(n.iter) == "family" and any(isinstance(c, ast.Call) and u(c.func) == "pedigree.add_individual" and u(c.args[0]) == u(n.target) for c in ast.walk(n))]
     cpc = [c for c in ctx.prog.calls_in(run.node) if u(c.func) == "create_pedigree"]
     fam_arg = None
     if cpc:
         amap = dict(zip(util.params_of(cp.node), [u(a) for a in cpc[0].args]))
         fam_arg = amap.get("family")
-    ok = (None if not z else (len(z) == 1 and len(cpl) == 1 and fam_arg == "family" and any(isinstance(s, ast.Assign) and u(s.targets[0]) == "superreads[%s]" % u(z[0].target.elts[0]) and u(s.value) == u(z[0].target.elts[1]) for s in ast.walk(z[0]))))
+    # every entry of the per-sample result table is a (family member, read set) pair of that zip: stored in a loop over it
+    # (the loop may be split into several over the same zip) or handed to update() whole
+    sr_st = [s_ for s_ in util.store_sites(run.node) if s_.kind == "subscript" and u(s_.target.value) == "superreads"]
+    sr_up = [c for c in ctx.prog.calls_in(run.node) if u(c.func) == "superreads.update"]
+    def _in_zip_loop(s_):
+        return any(s_.stmt in list(ast.walk(l_)) and u(s_.target.slice) == u(l_.target.elts[0]) and u(s_.value) == u(l_.target.elts[1]) for l_ in z)
+    if not z and not sr_up:
+        ok = None
+    else:
+        ok = len(cpl) == 1 and fam_arg == "family" and bool(sr_st or sr_up) and all(_in_zip_loop(s_) for s_ in sr_st) and all(len(c.args) == 1 and not c.keywords and _is_zip(c.args[0]) for c in sr_up)
     sl = util.single_def(run.node, "superreads_list")
     oks = any(isinstance(n, ast.Assign) and isinstance(n.targets[0], ast.Tuple) and u(n.targets[0].elts[0]) == "superreads_list" and u(n.value) == "dp_table.get_super_reads()" for n in walk_function(run.node))
     hop("9b same family sequence for add_individual and for zip with the result", ok and oks, run.loc(z[0]) if z else run.loc(), "individuals are added in `family` order and the solver's read sets are zipped with the same `family`", "the family sequence used for add_individual and the one zipped with the super reads differ")
